@@ -1213,6 +1213,8 @@ class C01(Property):
                 for p in a:
                     p.append(JUNK)
                     p.reverse()
+        except CaseTimeout:
+            raise                   # (one-shot timer: a swallowed timeout would leave a looping implementation unguarded)
         except Exception:
             pass
 
@@ -1220,6 +1222,22 @@ class C01(Property):
         return {KEY_FORMS[cx.u][k][0]: cx.V(v) for k, v in F}
 
     def impl(self, case):
+        out = self._impl_once(case, 1 if self.stats.get('timeouts') else 10)
+        if out and out[-1].get('exc') == 'CaseTimeout' and not self.stats.get('timeouts'):
+            # the first timeout of a run is looked at twice: a history takes milliseconds, and a machine shared with
+            # other jobs can stall for seconds; a looping implementation times out again (then 1 s per case from here on)
+            out2 = self._impl_once(case, 30)
+            if out2 and out2[-1].get('exc') == 'CaseTimeout':
+                self.stats['timeouts'] = 1
+            else:
+                self.stats['stalls_retried'] = self.stats.get('stalls_retried', 0) + 1
+            out = out2
+        elif out and out[-1].get('exc') == 'CaseTimeout':
+            self.stats['timeouts'] = self.stats.get('timeouts', 0) + 1
+        self._note_taken(case, out)
+        return out
+
+    def _impl_once(self, case, limit):
         classes = _classes()
         cls = classes[case['c']]
         cx = Ctx(case)
@@ -1227,17 +1245,15 @@ class C01(Property):
         try:
             # a history takes milliseconds; once a case has timed out (a looping implementation)
             # the following ones get 1 s instead of 10 s so that the run still ends
-            with time_limit(1 if self.stats.get('timeouts') else 10):
+            with time_limit(limit):
                 s, t = cls(), cls()
                 for op in case['ops']:
                     ret, s, t = self._apply(cx, cls, s, t, op)
                     out.append({'ret': ret, 'dump': self._dump(cx, s, t)})
         except CaseTimeout:
-            self.stats['timeouts'] = self.stats.get('timeouts', 0) + 1
             out.append({'exc': 'CaseTimeout'})
         except Exception as e:      # harness-level surprise: recorded, judged by the oracle
             out.append({'exc': exc_name(e), 'msg': str(e)[:200]})
-        self._note_taken(case, out)
         return out
 
     def _apply(self, cx, cls, s, t, op):
